@@ -99,7 +99,7 @@ Fixpoint to_dict (t : ty) : jv :=
 
 (* ---- from_dict ---- *)
 Inductive err := KeyError | ValueError | TypeError | IndexError | LookupError | AttributeError | AssertionError
-               | OutOfFuel | NoFilesFound.
+               | OutOfFuel | NoFilesFound | OracleMiss | OtherError.
 Inductive res (T : Type) := Ok (a : T) | Err (e : err).
 Arguments Ok {T}. Arguments Err {T}.
 
